@@ -5,8 +5,11 @@ package gosym
 
 import (
 	"fmt"
+	"go/token"
 	"go/types"
 	"strings"
+
+	"golang.org/x/tools/go/ssa"
 )
 
 type jsonCodec struct {
@@ -60,6 +63,26 @@ func init() {
 	intrinsics["encoding/json.NewDecoder"] = func(fr *frame, a []value) (value, bool) {
 		return &jsonCodec{rw: a[0]}, true
 	}
+	// More: "is there another element": false at the end of the input and in front of a closing
+	// delimiter (encoding/json peeks at the next non-space byte), true otherwise.
+	intrinsics["(*encoding/json.Decoder).More"] = func(fr *frame, a []value) (value, bool) {
+		c, ok := a[0].(*jsonCodec)
+		if !ok {
+			panic(engineErr("json.Decoder not created by the model"))
+		}
+		db := docStreamOf(c.rw)
+		if db == nil {
+			panic(engineErr("json.Decoder.More is modelled for document streams only"))
+		}
+		if db.yaml && len(db.docs) > 0 {
+			return true, true
+		}
+		switch db.jsonDocNext(c.pos) {
+		case "stray", "eof":
+			return false, true
+		}
+		return true, true
+	}
 	intrinsics["encoding/json.NewEncoder"] = func(fr *frame, a []value) (value, bool) {
 		return &jsonCodec{rw: a[0]}, true
 	}
@@ -72,10 +95,12 @@ func init() {
 			if db.yaml && len(db.docs) > 0 {
 				return fr.m.errIface("invalid character looking for beginning of value"), true
 			}
-			if c.pos == db.malformedAt {
+			switch db.jsonDocNext(c.pos) {
+			case "malformed":
 				return fr.m.errIface("invalid character '{' after object key:value pair"), true
-			}
-			if c.pos >= len(db.docs) {
+			case "stray":
+				return fr.m.errIface("invalid character '}' looking for beginning of value"), true
+			case "eof":
 				return fr.m.ioEOF(), true
 			}
 			fr.m.decodeDoc(db.docs[c.pos], a[1])
@@ -98,7 +123,40 @@ func init() {
 		}
 		st, ok := carrierStruct(c.rw, "Sink")
 		if !ok {
-			panic(engineErr("json encoding to a writer that is not a harness carrier is not modelled"))
+			// a wrapper around the carrier (e.g. chi's WrapResponseWriter): the payload goes to the
+			// carrier found through Unwrap(), and the wrapper sees an (empty) Write so that its own
+			// book-keeping (implicit WriteHeader) runs as in the real encoder.
+			w := c.rw
+			for depth := 0; depth < 4 && !ok; depth++ {
+				it, isI := w.(iface)
+				if !isI || it.t == nil {
+					break
+				}
+				var unwrap *ssa.Function
+				ms := fr.m.prog.MethodSets.MethodSet(it.t)
+				for i := 0; i < ms.Len(); i++ {
+					sel := ms.At(i)
+					sig := sel.Type().(*types.Signature)
+					if sel.Obj().Name() == "Unwrap" && sig.Params().Len() == 0 && sig.Results().Len() == 1 {
+						unwrap = fr.m.prog.MethodValue(sel)
+					}
+				}
+				if unwrap == nil {
+					break
+				}
+				w = call(fr.m, fr, token.NoPos, unwrap, []value{it.v})
+				st, ok = carrierStruct(w, "Sink")
+			}
+			if !ok {
+				panic(engineErr("json encoding to a writer that is not a harness carrier is not modelled"))
+			}
+			it := c.rw.(iface)
+			ms := fr.m.prog.MethodSets.MethodSet(it.t)
+			for i := 0; i < ms.Len(); i++ {
+				if sel := ms.At(i); sel.Obj().Name() == "Write" {
+					call(fr.m, fr, token.NoPos, fr.m.prog.MethodValue(sel), []value{it.v, zero(types.NewSlice(types.Typ[types.Byte]))})
+				}
+			}
 		}
 		v := a[1].(iface)
 		st[0] = iface{t: v.t, v: copyVal(v.v)}
